@@ -473,6 +473,14 @@ func runC17(p *core.Prog, r *core.Report) {
 		seen[cl] = true
 		// what is cleaned is the URL path itself, at most with a slash put in front: nothing is cut out of it or replaced
 		// before (names such as ".a" or "..b" are ordinary segments and must come through unchanged)
+		if bs, isB := sx.Unspill(ctx.argOf[cl]).(*ssa.Call); isB && sx.CalleeName(bs) == "(*strings.Builder).String" && sx.CalleeName(cl) == "path.Clean" {
+			// the path is assembled in a local strings.Builder: judged per path through the function — the builder holds
+			// "/" + the parameter, or the parameter alone on a path where its leading '/' was established
+			ok, why := builderRooted(fn, bs)
+			r.Check(ok, "C17-R2", "argument of path.Clean in "+fnName(cl.Parent())+" is the URL path itself", p.Pos(cl.Pos()), "a local builder holding the parameter, or \"/\" + the parameter", why)
+			r.Check(ok, "C17-R2", "argument of "+short(sx.CalleeName(cl))+" in "+fnName(cl.Parent())+" is rooted", p.Pos(cl.Pos()), "starts with '/' on every path", why+": path.Clean keeps leading '..' elements of a non-rooted path, the join would climb out of the base")
+			continue
+		}
 		if sx.CalleeName(cl) == "path.Clean" {
 			via := ""
 			var walk func(v ssa.Value, d int)
@@ -581,4 +589,124 @@ func variadicElems(v ssa.Value) []ssa.Value {
 		out = append(out, m[i])
 	}
 	return out
+}
+
+// builderRooted: str is `b.String()` of a local strings.Builder. On every acyclic path from the entry to it the builder
+// received either "/" and then the URL-path parameter, or the parameter alone with its leading '/' established on
+// that path; nothing else is written, the builder is used for nothing else.
+func builderRooted(fn *ssa.Function, str *ssa.Call) (bool, string) {
+	b := sx.Unspill(str.Call.Args[0])
+	if _, isLocal := b.(*ssa.Alloc); !isLocal {
+		return false, "the strings.Builder handed to path.Clean is not a local variable"
+	}
+	var raw *ssa.Parameter
+	for _, prm := range fn.Params[1:] {
+		if isStringT(prm.Type()) {
+			raw = prm
+		}
+	}
+	if raw == nil {
+		return false, "no URL-path parameter"
+	}
+	type write struct {
+		cst  string
+		isC  bool
+		isIn bool
+	}
+	writesAt := map[ssa.Instruction]write{}
+	bad := ""
+	for _, u := range *b.Referrers() {
+		c, ok := u.(*ssa.Call)
+		if !ok {
+			if _, isDbg := u.(*ssa.DebugRef); !isDbg {
+				bad = "the builder is used by " + u.String()
+			}
+			continue
+		}
+		switch sx.CalleeName(c) {
+		case "(*strings.Builder).Grow", "(*strings.Builder).String", "(*strings.Builder).Len":
+		case "(*strings.Builder).WriteByte", "(*strings.Builder).WriteRune":
+			if k, isK := sx.ConstInt(c.Call.Args[1]); isK && k > 0 && k < 0x80 {
+				writesAt[c] = write{cst: string(rune(k)), isC: true}
+			} else {
+				bad = "a computed byte is written to the builder"
+			}
+		case "(*strings.Builder).WriteString":
+			if k, isK := sx.ConstString(c.Call.Args[1]); isK {
+				writesAt[c] = write{cst: k, isC: true}
+			} else if sx.Unspill(c.Call.Args[1]) == ssa.Value(raw) {
+				writesAt[c] = write{isIn: true}
+			} else {
+				bad = "something other than the URL path is written to the builder (" + short(sx.ValPath(c.Call.Args[1])) + ")"
+			}
+		default:
+			bad = "the builder is handed to " + short(sx.CalleeName(c))
+		}
+	}
+	if bad != "" {
+		return false, bad
+	}
+	slash := leadingSlashEdges(fn, raw)
+	nPaths := 0
+	why := ""
+	onPath := map[*ssa.BasicBlock]bool{}
+	var dfs func(blk *ssa.BasicBlock, seq []write, sawSlash bool)
+	dfs = func(blk *ssa.BasicBlock, seq []write, sawSlash bool) {
+		if onPath[blk] || nPaths > 256 || why != "" {
+			if onPath[blk] {
+				for _, in := range blk.Instrs {
+					if _, w := writesAt[in]; w {
+						why = "the builder is written inside a loop"
+					}
+				}
+			}
+			return
+		}
+		onPath[blk] = true
+		defer func() { onPath[blk] = false }()
+		for _, in := range blk.Instrs {
+			if w, isW := writesAt[in]; isW {
+				seq = append(seq[:len(seq):len(seq)], w)
+			}
+			if in == ssa.Instruction(str) {
+				nPaths++
+				text, nIn := "", 0
+				lead := ""
+				for _, w := range seq {
+					if w.isIn {
+						nIn++
+						if nIn == 1 {
+							lead = text
+						}
+					} else if nIn == 0 {
+						text += w.cst
+					} else {
+						why = "text is appended after the URL path"
+					}
+				}
+				switch {
+				case nIn != 1:
+					why = fmt.Sprintf("on some path the URL path is written %d times", nIn)
+				case lead == "/":
+				case lead == "" && sawSlash:
+				case lead == "":
+					why = "on some path the builder holds the URL path alone although its leading '/' was not established"
+				default:
+					why = fmt.Sprintf("on some path %q is put in front of the URL path", lead)
+				}
+				return
+			}
+		}
+		for i, sc := range blk.Succs {
+			dfs(sc, seq, sawSlash || slash[sx.Edge{From: blk, Idx: i}])
+		}
+	}
+	dfs(fn.Blocks[0], nil, false)
+	if why != "" {
+		return false, why
+	}
+	if nPaths == 0 {
+		return false, "the String() call is not reachable"
+	}
+	return true, ""
 }
